@@ -28,8 +28,10 @@ def _mask():
 
 
 TORCH_ARGS = {
-    "cat": [("dim0", lambda a, b: (([a, b], 0), {})), ("dim1", lambda a, b: (([a, b],), {"dim": 1}))],
-    "stack": [("dim0", lambda a, b: (([a, b], 0), {})), ("dim2", lambda a, b: (([a, b], 2), {}))],
+    "cat": [("dim0", lambda a, b: (([a, b], 0), {})), ("dim1", lambda a, b: (([a, b],), {"dim": 1})),
+            ("three", lambda a, b: (((a, b, a), 0), {}))],
+    "stack": [("dim0", lambda a, b: (([a, b], 0), {})), ("dim2", lambda a, b: (([a, b], 2), {})),
+              ("three", lambda a, b: (((a, b, a),), {"dim": 1}))],
     "clone": [("default", lambda a, b: ((a,), {}))],
     "empty_like": [("default", lambda a, b: ((a,), {}))],
     "zeros_like": [("default", lambda a, b: ((a,), {}))],
@@ -109,6 +111,91 @@ def torch_functions(run, drv, classes):
                     run.oracle_ok(site)
         for (case, actual), ans in zip(pend, drv.ask_many(reqs)):
             run.corr("torch_function", case, actual, parse_sx(ans))
+
+
+def _uses(args, kw, obj):
+    def walk(v):
+        if v is obj:
+            return True
+        if isinstance(v, (list, tuple)):
+            return any(walk(x) for x in v)
+        return False
+    return any(walk(v) for v in args) or any(walk(v) for v in kw.values())
+
+
+def torch_mixed(run, classes):
+    """MIXED operand lists: every overridden torch function that takes several collections (found by asking each
+    argument builder whether it uses its second operand), with a tensorclass and a PLAIN TensorDict of the same
+    entries among the operands, in both orders, three operands, and nested one level in a parent tensordict.
+    Reference: the function on the underlying tensordicts.  Values must agree in every order; when the tensorclass
+    comes FIRST the result (nested: the entry) must come back in the class with its fields readable.  When the plain
+    tensordict comes first the first operand's type decides (a plain TensorDict comes back): counted, not judged."""
+    from tensordict._torch_func import TD_HANDLED_FUNCTIONS
+    for clsname in classes:
+        cls = Z.BEHAVIOUR_CLASSES[clsname]
+        fields = set(cls.__expected_keys__)
+        for func in sorted(TD_HANDLED_FUNCTIONS, key=lambda f: f.__name__):
+            fname = func.__name__
+            for label, build in TORCH_ARGS.get(fname, []):
+                a0, b0 = Z.make(cls), Z.make(cls, seed=1)
+                pa, pk = build(a0, b0)
+                if not _uses(pa, pk, b0):
+                    continue
+                site = "torch-mixed:" + fname
+
+                def call(args, kw):
+                    try:
+                        with time_limit(20), warnings.catch_warnings():
+                            warnings.simplefilter("ignore")
+                            return "ok", func(*args, **kw)
+                    except TimeoutError:
+                        raise
+                    except Exception as e:  # noqa: BLE001
+                        return "exc", e
+
+                def parent(v):
+                    return TensorDict({"k": v, "w": torch.zeros(2, 3, 1)}, batch_size=[2, 3])
+                for order in ("tc,td", "td,tc", "nested tc,td", "nested td,tc"):
+                    tcA, tcO = Z.make(cls), Z.make(cls, seed=1)
+                    rA, rO = Z.make(cls)._tensordict, Z.make(cls, seed=1)._tensordict
+                    tc_first = order.endswith("tc,td")
+                    x, y = (tcA, tcO._tensordict) if tc_first else (tcA._tensordict, tcO)
+                    nested = order.startswith("nested")
+                    if nested:
+                        x, y, rA, rO = parent(x), parent(y), parent(rA), parent(rO)
+                    st_ref, ref = call(*build(rA, rO))
+                    st, res = call(*build(x, y))
+                    case = [clsname, "torch." + fname, label, order]
+                    run.case(tuple(case), nontrivial=st_ref == "ok")
+                    if st_ref != "ok":
+                        run.count("torch_mixed.reference_raises", fname)
+                        continue
+                    if st != "ok":
+                        run.oracle_fail(site, case, f"torch.{fname} works on plain tensordicts, raises {type(res).__name__} on the mixed operands ({order}): {str(res)[:140]}",
+                                        fingerprint=f"torch.{fname}:{label}:{order}:raises:{err_class(res)}")
+                        continue
+                    why = None
+                    if nested:
+                        got, want = res.get("k"), ref.get("k")
+                        if B.canon(res.exclude("k")) != B.canon(ref.exclude("k")):
+                            why = "the other entries of the parent differ"
+                    else:
+                        got, want = res, ref
+                    if why is None and B.canon(B.unwrap(got)) != B.canon(want):
+                        why = "values differ from the function on the underlying tensordicts"
+                    if why is None and tc_first:
+                        if type(got) is not cls:
+                            why = f"tensorclass first: result of matching structure came back as {type(got).__name__}, not {cls.__name__}"
+                        else:
+                            bad = B.fields_readable(got)
+                            if bad:
+                                why = f"fields {bad} of the result do not read as the underlying entries"
+                    if why is None and not tc_first:
+                        run.count("torch_mixed.td_first_result_class", "tensorclass" if is_tensorclass(got) else type(got).__name__)
+                    if why:
+                        run.oracle_fail(site, case, why, fingerprint=f"torch.{fname}:{label}:{order}:{why[:60]}")
+                    else:
+                        run.oracle_ok(site)
 
 
 # --------------------------------------------------------------------------- typed fields
